@@ -68,10 +68,89 @@ def cases(rng, tier):
         case = {'schema': schema, 'names': names, 'digest': dig}
         if asym is not None:
             case['oracle_only'] = True
+        if rng.random() < 0.5:
+            # user functions are user code: what the checker is handed behaves like the function the schema author meant, but
+            # edits the argument list it was given in place / keeps it and edits it later, returns truthy / falsy non-bools;
+            # other Checker objects of the process bind the same names to other functions; the function's answer changes
+            case['ufn'] = {'mut': rng.choice(UFN_MUT), 'ret': rng.choice(UFN_RET), 'tenant': rng.random() < 0.5,
+                           'flip': rng.random() < 0.5, 'order': rng.choice(['same', 'reverse', 'shuffle']),
+                           'seed': rng.randrange(1 << 30)}
         yield case
 
 
+UFN_MUT = ['none', 'clear', 'pop', 'append', 'append-value', 'sort', 'reverse', 'fill-none', 'fill-value', 'double', 'keep-clear', 'keep-fill']
+UFN_SAMPLE = 12
+UFN_RET = ['bool', 'bool', 'int', 'str', 'list', 'obj']
+
+
+def _ufn(base, mode, negate):
+    """`base` (a predicate of the component and the argument values) as a piece of user code that treats what it is handed as its
+    own: the answer is computed first, from copies; then the argument LIST is edited in place (mode['mut']; 'keep-*': the list is
+    kept and edited at the next call), and the answer comes back as a truthy / falsy value of another type (mode['ret']).
+    negate: a one-element list read at every call - the function bound under this name answers the opposite while it is set"""
+    kept = []
+
+    def fn(value, args):
+        ans = base(bytes(value), [None if a is None else bytes(a) for a in args])
+        ans = bool(ans) != bool(negate[0])
+        mut = mode['mut']
+        for old in kept:
+            if mut == 'keep-clear':
+                del old[:]
+            else:
+                old[:] = [bytes(value)] * (len(old) + 1)
+        del kept[:]
+        if mut == 'clear':
+            del args[:]
+        elif mut == 'pop':
+            if args:
+                args.pop()
+        elif mut == 'append':
+            args.append(b'\x08\x02zz')
+        elif mut == 'append-value':
+            args.append(bytes(value))
+        elif mut == 'sort':
+            args.sort(key=lambda a: b'' if a is None else bytes(a), reverse=True)
+        elif mut == 'reverse':
+            args.reverse()
+        elif mut == 'fill-none':
+            args[:] = [None] * len(args)
+        elif mut == 'fill-value':
+            args[:] = [bytes(value)] * len(args)
+        elif mut == 'double':
+            args.extend(list(args))
+        elif mut.startswith('keep-'):
+            kept.append(args)
+        ret = mode['ret']
+        if ret == 'int':
+            return 7 if ans else 0
+        if ret == 'str':
+            return 'False' if ans else ''
+        if ret == 'list':
+            return [False] if ans else []
+        if ret == 'obj':
+            return object() if ans else None
+        return ans
+    return fn
+
+
+def _negated(base):
+    return lambda c, args: not base(c, args)
+
+
 def shrink(case):
+    if case.get('ufn'):
+        u = case['ufn']
+        yield {k: v for k, v in case.items() if k != 'ufn'}
+        for k in ('tenant', 'flip'):
+            if u[k]:
+                yield dict(case, ufn=dict(u, **{k: False}))
+        if u['ret'] != 'bool':
+            yield dict(case, ufn=dict(u, ret='bool'))
+        if u['mut'] != 'none':
+            yield dict(case, ufn=dict(u, mut='none'))
+        if u['order'] != 'same':
+            yield dict(case, ufn=dict(u, order='same'))
     nm, dg = case['names'], case['digest']
     for i in range(len(nm)):
         if len(nm) > 1:
@@ -99,10 +178,18 @@ def run_impl(case):
     fns = L.user_fns(L.FN_NAMES + (['$first'] if case.get('oracle_only') else []))
     spec = L.Spec(case['schema'], fns)
     res = {'token': None, 'static_errors': spec.static_errors()}
+    u = case.get('ufn')
+    neg = [False]
+    if u:
+        # every Checker gets its own dictionary of its own function objects
+        fns_ck = {k: _ufn(f, u, neg) for k, f in fns.items()}
+        fns_ck2 = {k: _ufn(f, u, neg) for k, f in fns.items()}
+    else:
+        fns_ck = fns_ck2 = fns
     try:
         model = compile_lvs(L.pp(case['schema']))
-        ck = Checker(model, fns)
-        ck2 = Checker.load(ck.save(), fns)
+        ck = Checker(model, fns_ck)
+        ck2 = Checker.load(ck.save(), fns_ck2)
     except Exception as e:              # noqa
         res['build'] = type(e).__name__
         res['may_self_sign'] = (not res['static_errors']) and spec.may_self_sign()
@@ -113,8 +200,43 @@ def run_impl(case):
     L.cap_steps(ck)
     L.cap_steps(ck2)
     names = [L.name_bytes(n, d) for n, d in zip(case['names'], case['digest'])]
-    res['checks'] = [L.impl_check(ck, p, k) for p in names for k in names]
+    sample = []
+    if u:
+        import random
+        rnd = random.Random(u['seed'])
+        sample = sorted(rnd.sample(range(len(names) ** 2), min(len(names) ** 2, UFN_SAMPLE)))
+    other = None
+    if u and u['tenant']:
+        # another tenant of the process: same model, the same function names bound to functions that answer the opposite; asked
+        # some of the same questions right after the first one
+        other = L.cap_steps(Checker(model if u['seed'] % 2 else Checker.load(ck.save(), {}).model,
+                                    {k: _ufn(_negated(f), u, [False]) for k, f in fns.items()}))
+    res['checks'], res['checks_other'] = [], []
+    for i, p in enumerate(names):
+        for j, k in enumerate(names):
+            res['checks'].append(L.impl_check(ck, p, k))
+            if other is not None and i * len(names) + j in sample:
+                res['checks_other'].append([i * len(names) + j, L.impl_check(other, p, k)])
     res['checks_reloaded'] = [L.impl_check(ck2, p, k) for p in names for k in names]
+    if u:
+        # the same objects asked some of it again (in another order), possibly after the functions bound to them changed their mind
+        order = list(sample)
+        if u['order'] == 'reverse':
+            order.reverse()
+        elif u['order'] == 'shuffle':
+            rnd.shuffle(order)
+        neg[0] = bool(u['flip'])
+        res['checks_again'] = [[idx, [L.impl_check(c, names[idx // len(names)], names[idx % len(names)]) for c in (ck, ck2)]] for idx in order]
+        neg[0] = False
+        nspec = L.Spec(case['schema'], fns)
+        nspec.fns = {k: _negated(f) for k, f in nspec.fns.items()}      # the Spec's own reading of each function, negated
+        nexp = []
+        for idx in sample:
+            try:
+                nexp.append([idx, bool(nspec.check(L.strip_digest(names[idx // len(names)]), L.strip_digest(names[idx % len(names)])))])
+            except Exception as e:      # noqa  (a user function raised)
+                nexp.append([idx, 'spec:' + type(e).__name__])
+        res['expected_negated'] = nexp
     exp = []
     for p in names:
         for k in names:
@@ -174,6 +296,26 @@ def oracle(case, impl):
             return f'check(name {p}, name {k}) = {got} but the schema {"allows" if exp else "does not allow"} it{extra}'
         if got2 != got:
             return f'check(name {p}, name {k}) differs after save/load: {got} vs {got2}'
+    u = case.get('ufn')
+    if u:
+        # the verdict is that of the statement for the functions bound to THAT checker at THAT time
+        nexp = dict(map(tuple, impl['expected_negated']))
+        for idx, got in impl['checks_other']:
+            p, k = divmod(idx, n)
+            exp = nexp[idx]
+            if isinstance(exp, bool) and not (got == 'TypeError' and tolerant) and got != exp:
+                return (f'check(name {p}, name {k}) = {got} on a second Checker whose user functions answer the opposite, but '
+                        f'the schema with those functions {"allows" if exp else "does not allow"} it')
+        for idx, gots in impl['checks_again']:
+            p, k = divmod(idx, n)
+            exp = nexp[idx] if u['flip'] else impl['expected'][idx]
+            if not isinstance(exp, bool):
+                continue
+            for which, got in zip(('the checker', 'the reloaded checker'), gots):
+                if not (got == 'TypeError' and tolerant) and got != exp:
+                    return (f'check(name {p}, name {k}) = {got} when {which} is asked again'
+                            f'{" after its user functions changed their answers" if u["flip"] else ""}, but the schema '
+                            f'{"allows" if exp else "does not allow"} it')
     return None
 
 
@@ -196,6 +338,11 @@ def tags(case, impl):
         if e is True and not ka[idx % n]:
             t.append('allowed-only-with-packet-bindings')
     t.append('names:%d' % n)
+    u = case.get('ufn')
+    if u:
+        t += ['ufn-mut:' + u['mut'], 'ufn-ret:' + u['ret'], 'ufn-tenant:%s' % u['tenant'], 'ufn-flip:%s' % u['flip']]
+        if any(impl['expected'][i] != e for i, e in impl.get('expected_negated') or []):
+            t.append('ufn-binding-matters')
     return t
 
 
